@@ -42,6 +42,31 @@ impl Wake for WakeFlag {
     }
 }
 
+/// The waker handed out for ONE poll. The `Future` contract only entitles the waker of the most
+/// recent poll to a wake-up, so every poll gets a waker of its own and a wake through an older one
+/// does not count (it is tallied in `stale`): a future that keeps the waker of an earlier poll
+/// (instead of re-registering the current one) then really does hang, as it may under any executor
+/// that moves it between tasks.
+pub struct GenWaker {
+    flag: Arc<WakeFlag>,
+    gen: usize,
+    current: Arc<AtomicUsize>,
+    stale: Arc<AtomicUsize>,
+}
+
+impl Wake for GenWaker {
+    fn wake(self: Arc<Self>) {
+        self.wake_by_ref()
+    }
+    fn wake_by_ref(self: &Arc<Self>) {
+        if self.current.load(Ordering::SeqCst) == self.gen {
+            self.flag.wake_by_ref();
+        } else {
+            self.stale.fetch_add(1, Ordering::SeqCst);
+        }
+    }
+}
+
 thread_local! {
     static LAST_PANIC: RefCell<Option<String>> = const { RefCell::new(None) };
     static CAPTURE: RefCell<bool> = const { RefCell::new(false) };
@@ -109,6 +134,8 @@ pub struct Task<T> {
     pub state: TaskState<T>,
     pub flag: Arc<WakeFlag>,
     pub polls: usize,
+    gen: Arc<AtomicUsize>,
+    pub stale_wakes: Arc<AtomicUsize>,
 }
 
 impl<T> Task<T> {
@@ -117,6 +144,8 @@ impl<T> Task<T> {
             state: TaskState::Running(Box::pin(fut)),
             flag: WakeFlag::new(true),
             polls: 0,
+            gen: Arc::new(AtomicUsize::new(0)),
+            stale_wakes: Arc::new(AtomicUsize::new(0)),
         }
     }
     pub fn is_running(&self) -> bool {
@@ -133,7 +162,8 @@ impl<T> Task<T> {
         };
         self.flag.clear();
         self.polls += 1;
-        let waker = Waker::from(self.flag.clone());
+        let gen = self.gen.fetch_add(1, Ordering::SeqCst) + 1;
+        let waker = Waker::from(Arc::new(GenWaker { flag: self.flag.clone(), gen, current: self.gen.clone(), stale: self.stale_wakes.clone() }));
         let mut cx = Context::from_waker(&waker);
         match guarded(|| fut.as_mut().poll(&mut cx)) {
             Ok(Poll::Pending) => PollOut::Pending,
@@ -162,6 +192,8 @@ impl<T> Task<T> {
 pub struct PollCell {
     pub flag: Arc<WakeFlag>,
     pub polls: usize,
+    gen: Arc<AtomicUsize>,
+    pub stale_wakes: Arc<AtomicUsize>,
 }
 
 impl PollCell {
@@ -169,12 +201,15 @@ impl PollCell {
         Self {
             flag: WakeFlag::new(true),
             polls: 0,
+            gen: Arc::new(AtomicUsize::new(0)),
+            stale_wakes: Arc::new(AtomicUsize::new(0)),
         }
     }
     pub fn poll_with<R>(&mut self, f: impl FnOnce(&mut Context<'_>) -> R) -> Result<R, String> {
         self.flag.clear();
         self.polls += 1;
-        let waker = Waker::from(self.flag.clone());
+        let gen = self.gen.fetch_add(1, Ordering::SeqCst) + 1;
+        let waker = Waker::from(Arc::new(GenWaker { flag: self.flag.clone(), gen, current: self.gen.clone(), stale: self.stale_wakes.clone() }));
         let mut cx = Context::from_waker(&waker);
         guarded(|| f(&mut cx))
     }
